@@ -279,6 +279,9 @@ pub struct GenCfg {
     pub warnful: bool,
     /// SEQUENCE types may inherit members with COMPONENTS OF from other local SEQUENCE types
     pub components_of: bool,
+    /// values whose governing type is not a plain type: a class field (`v CLASS.&id ::= 5`) and a
+    /// selection type (`v alt < Choice ::= 7`)
+    pub odd_governors: bool,
 }
 
 impl GenCfg {
@@ -301,6 +304,7 @@ impl GenCfg {
             echo_inner_names: false,
             recursion_bias: false,
             warnful: false,
+            odd_governors: false,
             components_of: false,
         }
     }
@@ -1102,6 +1106,20 @@ pub fn generate(rng: &mut Rng, cfg: &GenCfg) -> ModuleSet {
                 for sym in &class_syms[j] {
                     if g.rng.chance(1, 2) {
                         ctx.used_imports.entry(pres[j].name.clone()).or_default().insert(sym.clone());
+                        // objects of an imported class, with names that sort far apart (so that
+                        // definitions of other modules sort between them)
+                        let lo = p.stem.to_lowercase().trim_end_matches('-').to_string();
+                        let field = if sym.ends_with("-OPS") { Some("CODE") } else if sym.ends_with("-CLASS") { Some("ID") } else { None };
+                        if let Some(field) = field {
+                            if g.rng.chance(2, 3) {
+                                for (k, prefix) in ["alarm", "zone", "mid"].iter().enumerate() {
+                                    let oname = format!("{prefix}-{lo}-{}", sym.to_lowercase());
+                                    if k < 2 || g.rng.chance(1, 2) {
+                                        assigns.push(Assign { name: oname.clone(), kind: AKind::Class, text: format!("{oname} {sym} ::= {{ {field} {} }}", 10 + k), refs: vec![sym.clone()], comment: String::new() });
+                                    }
+                                }
+                            }
+                        }
                     }
                 }
             }
@@ -1121,24 +1139,59 @@ pub fn generate(rng: &mut Rng, cfg: &GenCfg) -> ModuleSet {
             }
             if g.rng.chance(1, 3) {
                 let cname = format!("{}-CLASS", p.stem.to_uppercase().trim_end_matches('-'));
+                // half of the time the identifier field is governed by a named local type too
+                let (id_ty, refs) = if g.rng.chance(1, 2) {
+                    let t = format!("{}Ident", p.stem.trim_end_matches('-'));
+                    assigns.push(Assign { name: t.clone(), kind: AKind::Type, text: format!("{t} ::= INTEGER (0..65535)"), refs: vec![], comment: String::new() });
+                    (t.clone(), vec![t])
+                } else {
+                    ("INTEGER".to_string(), vec![])
+                };
                 assigns.push(Assign {
                     name: cname.clone(),
                     kind: AKind::Class,
-                    text: format!("{cname} ::= CLASS {{ &id INTEGER UNIQUE, &Type OPTIONAL }} WITH SYNTAX {{ ID &id [TYPE &Type] }}"),
-                    refs: vec![],
+                    text: format!("{cname} ::= CLASS {{ &id {id_ty} UNIQUE, &Type OPTIONAL }} WITH SYNTAX {{ ID &id [TYPE &Type] }}"),
+                    refs,
                     comment: String::new(),
                 });
             }
             if g.rng.chance(1, 3) {
                 let pname = format!("{}Box", p.stem.trim_end_matches('-'));
+                // the dummy reference is a name of the template's own: half of the time it is
+                // spelled like a top-level type of ANOTHER module (which this module does not
+                // import and which has nothing to do with the template)
+                let others: Vec<&String> = pres.iter().enumerate().filter(|(j, _)| *j != mi).flat_map(|(_, q)| q.type_names.iter()).filter(|n| !p.type_names.contains(n)).collect();
+                let dummy = if !others.is_empty() && g.rng.chance(1, 2) { others[g.rng.below(others.len())].clone() } else { "ElementType".to_string() };
                 assigns.push(Assign {
                     name: pname.clone(),
                     kind: AKind::Param,
-                    text: format!("{pname} {{ElementType}} ::= SEQUENCE {{ content ElementType, count INTEGER (0..7) }}"),
+                    text: format!("{pname} {{{dummy}}} ::= SEQUENCE {{ content {dummy}, count INTEGER (0..7) }}"),
                     refs: vec![],
                     comment: String::new(),
                 });
+                if g.rng.chance(2, 3) {
+                    // and an instance of it
+                    let iname = format!("{}BoxOfInt", p.stem.trim_end_matches('-'));
+                    assigns.push(Assign {
+                        name: iname.clone(),
+                        kind: AKind::Type,
+                        text: format!("{iname} ::= {pname} {{ INTEGER (0..{}) }}", [255u32, 65535, 7][g.rng.below(3)]),
+                        refs: vec![pname.clone()],
+                        comment: String::new(),
+                    });
+                }
             }
+        }
+        if cfg.odd_governors && g.rng.chance(1, 2) {
+            let up = p.stem.to_uppercase().trim_end_matches('-').to_string();
+            let st = p.stem.trim_end_matches('-').to_string();
+            let lo = st.to_lowercase();
+            let cname = format!("{up}-KEYS");
+            assigns.push(Assign { name: cname.clone(), kind: AKind::Class, text: format!("{cname} ::= CLASS {{ &id INTEGER UNIQUE, &Type OPTIONAL }} WITH SYNTAX {{ ID &id [TYPE &Type] }}"), refs: vec![], comment: String::new() });
+            assigns.push(Assign { name: format!("{lo}-key-id"), kind: AKind::Value, text: format!("{lo}-key-id {cname}.&id ::= {}", g.rng.below(100)), refs: vec![cname.clone()], comment: String::new() });
+            let pick = format!("{st}Pick");
+            assigns.push(Assign { name: pick.clone(), kind: AKind::Type, text: format!("{pick} ::= CHOICE {{ num INTEGER, flag BOOLEAN }}"), refs: vec![], comment: String::new() });
+            assigns.push(Assign { name: format!("{lo}-picked"), kind: AKind::Value, text: format!("{lo}-picked num < {pick} ::= {}", g.rng.below(100)), refs: vec![pick.clone()], comment: String::new() });
         }
         if cfg.values && g.rng.chance(1, 6) {
             // a value whose name differs from a type's name only in the case of its first letter
